@@ -28,7 +28,7 @@ KIND = {
     4: "Start returned nil on a plan that may not be started (stale / zero SubmitTime / not NotStarted / invalid / maxSubmit 0)",
     5: "a call on an id the vault does not have did not fail (empty plan, nil error)",
     6: "no Start of a concurrent burst on a startable plan succeeded",
-    7: "executions differ from the number of successful Starts",
+    7: "executions differ from the Starts that returned nil (a Start returned nil but the plan was never executed, or a plan ran that nobody started)",
     8: "a failed Start returned something that is not an error",
     9: "Wait blocked until its deadline on a plan that is not executing (never started, finished, or unknown id): "
        "a rejected Start / finished run left a waiter behind - the rejection was not without side effects",
@@ -39,7 +39,7 @@ DEFECT = {1: "A1/A2 (panic)", 2: "A1", 3: "A1", 5: "A2", 7: "A1"}
 
 def sizes(tier):
     if tier == "quick":
-        return [dict(n=300, bursts=120, ticks=3, stale=12, maxlen=12, base=0)]
+        return [dict(n=300, bursts=120, ticks=3, stale=18, maxlen=12, base=0)]
     # thorough: more of the same, plus a batch of long histories (up to 24 calls before quiescing)
     return [dict(n=10000, bursts=3000, ticks=30, stale=300, maxlen=12, base=0),
             dict(n=2000, bursts=0, ticks=0, stale=0, maxlen=24, base=100000)]
